@@ -442,8 +442,50 @@ fn gen_case(rng: &mut Rng, w0: &World, session: &str, n_calls: usize) -> Option<
     let f = g.gen_fn_plain(depth);
     // the analysed type guides the call sites
     let mut w = w0.clone();
+    let has_list = g.last_intents.iter().any(|(_, t)| matches!(t, Ty::L(_)));
     let sch = match analyse_stmt(&mut w, &f) {
-        Ok(Line::Fn(_, s)) => s,
+        Ok(Line::Fn(_, s)) if !has_list => s,
+        // the independent analysis is dimension-only: a function with a list parameter gets its call sites from
+        // the generator's intended parameter types (hidden axes `~k` become quantified variables)
+        _ if has_list => {
+            let mut axes: Vec<String> = Vec::new();
+            let mut conv = |v: &V| -> V {
+                v.subst(&|a: &Atom| match a {
+                    Atom::TPar(n) if n.starts_with('~') => n[1..].parse::<usize>().ok().map(|k| V::atom(Atom::Q(k))),
+                    _ => None,
+                })
+            };
+            for (_, t) in &g.last_intents {
+                let v = match t {
+                    Ty::D(v) => v,
+                    Ty::L(el) => match &**el {
+                        Ty::D(v) => v,
+                        _ => return None,
+                    },
+                    _ => return None,
+                };
+                for a in v.0.keys() {
+                    if let Atom::TPar(n) = a {
+                        if !axes.contains(n) {
+                            axes.push(n.clone());
+                        }
+                    }
+                }
+            }
+            let ps: Vec<Ty> = g
+                .last_intents
+                .iter()
+                .map(|(_, t)| match t {
+                    Ty::L(el) => match &**el {
+                        Ty::D(v) => Ty::L(Box::new(Ty::D(conv(v)))),
+                        o => o.clone(),
+                    },
+                    Ty::D(v) => Ty::D(conv(v)),
+                    o => o.clone(),
+                })
+                .collect();
+            Scheme { nq: axes.len(), dim: vec![true; axes.len()], ty: Ty::F(ps, Box::new(Ty::scalar())) }
+        }
         _ => return None,
     };
     let S::Fn { name, .. } = &f else { return None };
@@ -470,7 +512,14 @@ fn gen_case(rng: &mut Rng, w0: &World, session: &str, n_calls: usize) -> Option<
             None
         };
         for (i, p) in ps.iter().enumerate() {
-            let Ty::D(pv) = p else { return None };
+            let (pv, is_list) = match p {
+                Ty::D(pv) => (pv, false),
+                Ty::L(el) => match &**el {
+                    Ty::D(pv) => (pv, true),
+                    _ => return None,
+                },
+                _ => return None,
+            };
             let mut v = pv.subst(&|a: &Atom| if let Atom::Q(j) = a { Some(inst[*j].clone()) } else { None });
             if perturb == Some(i) {
                 v = g.rand_dim();
@@ -478,7 +527,14 @@ fn gen_case(rng: &mut Rng, w0: &World, session: &str, n_calls: usize) -> Option<
             if v.0.values().any(|q| q.d > 6 || q.n.abs() > 24) {
                 v = g.rand_dim();
             }
-            let e = if g.rng.chance(1, 12) { E::Zero } else { g.leaf(&v) };
+            let e = if is_list {
+                let n = 1 + g.rng.below(3);
+                E::List((0..n).map(|_| g.leaf(&v)).collect())
+            } else if g.rng.chance(1, 12) {
+                E::Zero
+            } else {
+                g.leaf(&v)
+            };
             args.push(e);
         }
         calls.push(E::Call(name.clone(), args));
@@ -489,7 +545,7 @@ fn gen_case(rng: &mut Rng, w0: &World, session: &str, n_calls: usize) -> Option<
 fn main() {
     let args = Args::parse();
     let mut out = Out::new(&args);
-    out.rule = "generated unannotated functions of 1-3 parameters (body: type-directed mix of + - * / ^(rational) neg -> comparisons if-then-else, literal 0, calls of sqrt sqr cbrt abs hypot2 round_in mod unit_of value_of circle_area …; parameters share or derive dimensions so that inference has to unify), each defined in a clone of the session, re-declared with its printed signature, and probed with 24 call sites (2/3 fitting the analysed type, 1/3 with a perturbed argument, some literal zeros); every 8th case runs in a session that defines dimensions A, B, C. distinct = distinct function text; non-trivial = the inferred signature is generic".into();
+    out.rule = "generated unannotated functions of 1-3 parameters (body: type-directed mix of + - * / ^(rational) neg -> comparisons if-then-else, literal 0, calls of sqrt sqr cbrt abs hypot2 round_in mod unit_of value_of circle_area …; parameters share or derive dimensions so that inference has to unify; every fifth parameter is a list of quantities used through head sum maximum mean), each defined in a clone of the session, re-declared with its printed signature, and probed with 24 call sites (2/3 fitting the analysed type, 1/3 with a perturbed argument, some literal zeros); every 8th case runs in a session that defines dimensions A, B, C. distinct = distinct function text; non-trivial = the inferred signature is generic".into();
     let w0 = tables::prelude_world();
     let mut sessions: Vec<(String, Context)> = Vec::new();
     for k in ["P", "A"] {
